@@ -23,9 +23,10 @@ TRACE = "T_Detection"
 ENUM = {
     "quick": [dict(module="MC_Detection", cfg="MC_Detection_quick.cfg", workers=12),
               dict(module="MC_Detection", cfg="MC_Detection_clips.cfg", workers=4)],
-    "thorough": [dict(module="MC_Detection", cfg="MC_Detection_thorough.cfg", workers=16, coverage=True),
-                 dict(module="MC_Detection", cfg="MC_Detection_thorough_rich.cfg", workers=16, coverage=True),
-                 dict(module="MC_Detection", cfg="MC_Detection_clips.cfg", workers=4, coverage=True)],
+    # coverage (an action never taken = failure) on the small config only: TLC's interim coverage reports of a long run contain zeros
+    "thorough": [dict(module="MC_Detection", cfg="MC_Detection_clips.cfg", workers=4, coverage=True),
+                 dict(module="MC_Detection", cfg="MC_Detection_thorough.cfg", workers=16),
+                 dict(module="MC_Detection", cfg="MC_Detection_thorough_rich.cfg", workers=16)],
 }
 POOL = 12
 CHUNK = 1000
@@ -138,8 +139,8 @@ def execute(case):
         key = (cid, side, k)
         if key not in cache:
             for _ in range(50):
-                a0 = rng.uniform(0.0, 4.0)
-                g = _mk(e["g"][0], _rand_coords(rng, e["g"][0], a0, a0 + rng.uniform(0.3, 3.0)))
+                a0 = rng.uniform(0.0, 2.5)              # a narrow window and band: overlaps are frequent
+                g = _mk(e["g"][0], _rand_coords(rng, e["g"][0], a0, a0 + rng.uniform(0.3, 3.0), 1000.0, 4000.0))
                 if geometry_to_shapely(g).is_valid:
                     break
             else:
@@ -161,7 +162,9 @@ def random_cases(rng, tier):
             return q
 
         def gk():
-            return [] if rng.random() < 0.2 else [rng.choice(KINDS)]
+            if rng.random() < 0.2:
+                return []
+            return [rng.choice(KINDS if rng.random() < 0.4 else ["BoundingBox", "Polygon", "TimeInterval", "MultiPolygon"])]
         clips = [{"id": 1, "anns": [{"g": ["BoundingBox"], "cls": 1}], "preds": [{"g": ["Polygon"], "sc": scores()}]}]
         for cid in range(2, rng.randint(2, 4) + 1):
             clips.append({"id": cid,
